@@ -105,9 +105,9 @@ PROPS = {
         "assumptions": SIM_ASSUME + ["crash model: a byte prefix of what n2 appends reaches the file (no reordering/loss of earlier writes)"],
     },
     "C08": {
-        "stages": [sim(25, 420)],
-        "rule": "(a) record shapes: 1-40 outputs x 0-1000 discovered deps (65535/65536/65537/70000 in one case per quick run, 1 in 6 shape cases in thorough) x names of 1-3900 bytes incl. non-ASCII: build, reload (what n2 loads per step must equal what an independent reader of .n2_db finds for the latest applicable record), no-op rebuild, touch one dep, rebuild; (b,c) histories of semantics-preserving manifest rewrites (statement reordering, unrelated statements, rule renaming, command via variables, include split, path respelling) which must cause no run, and output moves / output-set changes after which old records must be unusable, judged by exact run-set comparison with the reference model; non-trivial = a rewrite/move history with a partial rebuild, or a record with >= 255 deps / >= 7 outputs / names >= 255 bytes",
-        "must_observe": ["events", "shape_cases", "noop_rebuilds_checked"],
+        "stages": [sim(25, 420), real(6, 120)],
+        "rule": "(a) record shapes: 1-40 outputs x 0-1000 discovered deps (65535/65536/65537/70000 in one case per quick run, 1 in 6 shape cases in thorough) x names of 1-3900 bytes incl. non-ASCII: build, reload (what n2 loads per step must equal what an independent reader of .n2_db finds for the latest applicable record), no-op rebuild, touch one dep, rebuild; (b,c) histories of semantics-preserving manifest rewrites (statement reordering, unrelated statements, rule renaming, command via variables, include split, path respelling) which must cause no run, and output moves / output-set changes after which old records must be unusable, judged by exact run-set comparison with the reference model; non-trivial = a rewrite/move history with a partial rebuild, or a record with >= 255 deps / >= 7 outputs / names >= 255 bytes; (d) black box: trees of 2-5 shell steps whose outputs, directories and depfile-reported headers have names that are not valid UTF-8 (Latin-1 and arbitrary bytes >= 0x80), 3-5 invocations separated by nothing / a manifest rewrite (reorder, rename rules, comments, a new step) / a source edit / a header edit: the commands that ran (each appends to a log) must be exactly the reference set",
+        "must_observe": ["events", "shape_cases", "noop_rebuilds_checked", "rawname_builds_checked"],
         "assumptions": SIM_ASSUME,
     },
     "C09": {
